@@ -20,6 +20,11 @@ def gdesc(m, g):
     r = g.root
     k = r[0]
     if k == "call":
+        if r[3] and r[3][0] == "@Continue" and "Try>::branch" in r[1]:
+            # the value of `x?`: name it after x
+            a = Prov(m, "alias").root(g.fn, Call(g.fn, r[2]).args[0])
+            if a[0] == "call":
+                return "%s?=%s" % (short_name(a[1]), g.truth if g.truth is not None else sorted(g.labels))
         return "%s=%s" % (short_name(r[1]), g.truth if g.truth is not None else sorted(g.labels))
     if k == "local":
         return "var:%s=%s" % (r[2], g.truth if g.truth is not None else sorted(g.labels))
@@ -41,7 +46,10 @@ def exact_guards(cx, rule, key, f, site_block, required, allowed, what, loc):
     """B.4: non-neutral dominating guards must be a superset of `required` and a subset of
     required+allowed (each a regex over gdesc strings)"""
     m = cx.m
-    descs = [gdesc(m, g) for g in guards_of(m, f, site_block, mode="value") if not g.neutral]
+    # deciding conditions (control dependence over the path-sensitive CFG, vlib/ctrl.py) rather than dominating guards: the
+    # same set for `a || b`, for a named temporary and for a condition moved into a `match`
+    from vlib.ctrl import deciding
+    descs = sorted({gdesc(m, g) for g in deciding(m, f, site_block, mode="value") if not g.neutral})
     missing = [p for p in required if not any(re.search(p, d) for d in descs)]
     extra = [d for d in descs if not any(re.search(p, d) for p in list(required) + list(allowed))]
     cx.ob(rule, key, not missing and not extra, what + " (guards: %s)" % descs, loc,
@@ -202,7 +210,7 @@ def r2(cx):
         cx.ob("C01.R2", "next:parent-review:receiver", is_parent, "the task reviewed at the end of `next` is `ctx.task().parent()`", c.loc, receiver=root_str(recv))
         exact_guards(cx, "C01.R2", "next:parent-review:guards", f, c.b,
                      required=[r"^TaskState::is_completed=True$", r"^match\(.*\)=Some$"],
-                     allowed=[r"^var:is_next=False$", r"^Task::is_event_processed=False$", r"^Try.*branch", r"^match\(.*branch.*\)=Continue$"],
+                     allowed=[r"^var:is_next=False$", r"ActTask>::next\?=False$", r"^Task::is_event_processed=False$", r"^Try.*branch", r"^match\(.*branch.*\)=Continue$"],
                      what="a finished task wakes its parent unless it scheduled a successor itself or is a hook act", loc=c.loc)
     # B: <Arc<Task>>::review -> parent.review
     f = m.one(ARC_TASK_IMPL + r"review$")
@@ -214,7 +222,7 @@ def r2(cx):
         recv = pa.root(f, c.args[0])
         cx.ob("C01.R2", "review:upward:receiver", _from_parent(f, pa, recv), "the upward review goes to `ctx.task().parent()`", c.loc, receiver=root_str(recv))
         exact_guards(cx, "C01.R2", "review:upward:guards", f, c.b,
-                     required=[r"^var:is_review=True$", r"^match\(.*\)=Some$"],
+                     required=[r"^var:is_review=True$|ActTask>::review\?=True$", r"^match\(.*\)=Some$"],
                      allowed=[r"^Task::is_event_processed=False$", r"^match\(.*branch.*\)=Continue$"],
                      what="a review that closed its task continues with the parent", loc=c.loc)
     # C: empty catch -> review
@@ -226,7 +234,9 @@ def r2(cx):
         c = sites[0]
         exact_guards(cx, "C01.R2", "catch:empty-review:guards", f, c.b,
                      required=[r"^match\(self\)=Catch$", r"^match\(Task::err\)=Some$", r"is_empty=True$"],
-                     allowed=[r"^Task::with_data=False$", r"^match\(.*branch.*\)=Continue$"],
+                     allowed=[r"^Task::with_data=False$", r"^match\(.*branch.*\)=Continue$",
+                              # the catch matches (any spelling; what it must be is C06.R4's obligation)
+                              r"PartialEq.*::eq=True$", r"::is_none=", r"::is_some=", r"^match\(.*\bon\b.*\)="],
                      what="a matching catch without steps continues the flow by reviewing the revived task", loc=c.loc)
     cx.floor("C01.R2", 5)
 
